@@ -39,6 +39,7 @@ Definition chk (c : call) (m : machine) : bool :=
     end
   | KFinalizeList L rest any old_f => forallb (live_alloc m) rest
   | KDropList L rest old_d =>
+    forallb (fun g => mem_id g L) rest &&
     forallb (fun g => match get m g with
                       | Some x => is_alloc x && (if mem_id g rest then is_live x else is_dropped_v x)
                       | None => false end) L
@@ -116,7 +117,10 @@ Section Ok.
       destruct (Hmem g) as (x & Hx & Hb & Hv & _); [apply elem_of_app; right; exact Hg|].
       unfold live_alloc, is_live, is_alloc. rewrite Hx, Hb, Hv. reflexivity.
     - (* drop list *)
-      cbn in Hpre. destruct Hpre as (_ & _ & _ & Hmem & _). cbn [chk].
+      cbn in Hpre. destruct Hpre as (_ & _ & (done & HLd) & Hmem & _). cbn [chk].
+      apply andb_true_iff. split.
+      { apply forallb_forall. intros g Hg. apply elem_of_list_In in Hg. apply mem_id_elem. rewrite HLd.
+        apply elem_of_app. right. exact Hg. }
       apply forallb_forall. intros g Hg. apply elem_of_list_In in Hg.
       destruct (Hmem g Hg) as (_ & _ & x & Hx & Hb & _ & Hv). rewrite Hx. unfold is_alloc. rewrite Hb. cbn [andb].
       destruct (decide (g ∈ rest)) as [Hin|Hnin].
